@@ -15,6 +15,7 @@ from .. import chunking
 from ..common import Check, Outcome, Snap, subscribe, subscribe2, bootstrap, interleave
 
 rs = bootstrap()
+from ..progs import call          # noqa: E402  (positional / keyword calling conventions, see progs.call)
 
 ENCODINGS = ['utf-8', 'utf-16', 'utf-32', 'latin-1']
 # other legal spellings of the same four encodings (codecs.lookup resolves them to the same codec)
@@ -161,7 +162,7 @@ class C17(Check):
         if name != enc:
             out.tags.append('alias-spelling')
         if name not in self._ops:
-            self._ops[name] = (rs.data.encode(name), rs.data.decode(name))
+            self._ops[name] = (call(rs.data.encode, [('encoding', name)]), call(rs.data.decode, [('encoding', name)]))
         enc_op, dec_op = self._ops[name]
         e = subscribe2(rx.from_(strs).pipe(enc_op), out, 'encode')
         if e.err is not None or not e.done:
